@@ -244,13 +244,17 @@ def returnUnused (s : State) (c : Checkout) : State :=
 def cancelIfOwner (s : State) (c : Checkout) : State :=
   if c.marker then cancelConnection s c.token else s
 
+/-- `self.connection.take()`: the checkout no longer holds the connection it was given -/
+def takeConn (s : State) (r : ReqId) (c : Checkout) : State :=
+  { s with co := upd s.co r (some { c with conn := none }) }
+
 /-- `PinnedDrop for Checkout` followed by the field drops -/
 def dropCheckout (s : State) (r : ReqId) : State :=
   match s.co r with
   | none => s
   | some c =>
     if !c.alive then s else
-    let s := returnUnused s c
+    let s := returnUnused (takeConn s r c) c
     if c.inner = .delayDrop then
       let s := spawn s (.delayed r)
       let s := dropRx s r
